@@ -54,7 +54,7 @@ func runC03(k int, rng *Rng) CaseResult {
 	clockNewCase(clockModeFor(cfg))
 	installHooks(stdHooks())
 	w := NewWorld("C03", rng, cfg, caseDir(k, "c03"))
-	w.predict, w.storeWant = true, true
+	w.predict, w.storeWant = true, false
 	defer w.Cleanup()
 	if !w.OpenCreate() {
 		return w.finish(nil, false, nil)
